@@ -22,6 +22,7 @@ THEOREMS = ["EngineModel.Properties.C09." + t for t in [
     "C09_history_listings_equal_spec_partial",
     "C09_step_changes_as_prescribed",
     "C09_history_listings_change_as_prescribed_partial",
+    "C09_add_back_identity_includes_database",
     "C09_history_counterexample",
 ]]
 ASSUMPTIONS = [
@@ -31,6 +32,8 @@ ASSUMPTIONS = [
     "the UNIQUE (parentListId, nextListId) constraint is not modelled (it never fires on chain-well-formed states; a firing "
     "would show as a sqlite_error divergence in the tie)",
     "table-level playlist_entity_table histories use positive track ids (the schema's delete trigger is declared WHEN OLD.trackId > 0)",
+    "database uuids are modelled as integer tags (0 = the library's own uuid, k > 0 = a foreign database); the tie maps the "
+    "tags to fixed synthetic uuid strings, so only equality of uuids is modelled (which is all the code uses)",
 ]
 MANIFEST = dict(
     text="Lean theorems over a generic model of keyed singly-linked chains stored in a SQL table (INSERT under the "
